@@ -3,6 +3,7 @@
 package sets
 
 import (
+	"math"
 	"sort"
 	"strconv"
 )
@@ -12,7 +13,8 @@ type ssSet = IntSet
 
 const ssPrefix = "intset"
 
-var ssUniverse = []ssE{4, 5, 6, -2, 3, -1, 1, 2, 0}
+// the extremes of int are far enough apart for a subtraction-based comparison to overflow
+var ssUniverse = []ssE{math.MinInt64, math.MaxInt64, 4, 5, 6, -2, 3, -1, 1, 2, 0}
 var ssSentinel ssE = 1 << 40
 
 func ssNew(e ...ssE) *ssSet { return NewIntSet(e...) }
